@@ -71,6 +71,8 @@ def generate(tier, seed, work, stats):
         j = (i * 31 + 7 + seed) % n
         cases.append(dict(kind="fst", hist=h, hist2=singles[j], spool=pools[i % 4], spool2=pools[(i // 4) % 4] if i % 3 else pools[i % 4],
                           same=(i % 5 == 0), L=3, family="FSTGen"))
+        if i % 6 == 1:      # output symbols handed over as a tuple
+            cases.append(dict(cases[-1], outs="tuple", family="FSTGen-tuple-outputs"))
     # to_fst on automata of the FA generator
     for kind in ("enfa", "dfa"):
         states = core.tlc_dump("FAGen", c01.gen_cfg(kind, 2, 3, 0, invariants=False, maxs=2, maxf=2), work, stats=stats,
@@ -100,7 +102,7 @@ def replay(case):
         else:
             ev["exc"] = r[1] if r[0] == "exc" else "Timeout"
         return [ev]
-    t, spec = fsth.build(case["hist"], case["spool"])
+    t, spec = fsth.build(case["hist"], case["spool"], outs=tuple if case.get("outs") == "tuple" else list)
     T = fsth.project(t)
     evs.append({"op": "build", "T": T, "spec": spec})
     outs, status = fsth.translate_all(t, words)
